@@ -1,15 +1,20 @@
 import AiocoapModel.Basic.Bytes
 import AiocoapModel.Oscore.ReplayWindow
 import AiocoapModel.Oscore.Responses
+import AiocoapModel.Oscore.Wire
 /-! Line protocol for the replay-window model.
 
 `C12 W <size> <index> <bitfield> <op>*`   start state = `initialize_from_persisted` of (index, bitfield), which may
    have been persisted by a window of another size; ops `v<n>` (is_valid) / `s<n>` (strike_out)
    → one result per op (`1`/`0` for v, `ok`/`err` for s) then `|<index>:<bitfield>`
 `C12 U <size> <win> <echo> <arrival>*`    win `u` | `i:<index>:<bitfield>`; echo `-` | n;
-   arrival `<seq>:<0|1>:<echo|->` → outcome letters then `|<win>`
-`C12 M <size> <win> <echo> <msg>*`        mixed traffic: msg `q:<seq>:<0|1>:<echo|->` (request) |
-   `p:<seq|->:<0|1>` (response) → outcome letters then `|<win>`
+   arrival `<seq>:<0|1>:<echo|->[:<code>]` → outcome letters then `|<win>`
+`C12 M <size> <win> <echo> <msg>*`        mixed traffic: msg `q:<seq>:<0|1>:<echo|->[:<code>]` (a request of the
+   peer) | `p:<seq|->:<0|1>[:<code>]` (a response of the peer) → outcome letters then `|<win>`
+`<code>` is the OUTER code the message arrives under (0..255; default POST for q, 2.05 for p): the peer made
+the message as a request / a response, whoever delivers it chooses the code.  Both kinds of line are run
+through `runWire` (Oscore/Wire.lean), which classifies by that code as `unprotect` does; letter `V` is the
+`ValueError` of `CodeStyle.from_request`.
 -/
 namespace Aiocoap.Oscore
 
@@ -38,17 +43,43 @@ def parseArrival (s : String) : Option Arrival :=
     pure { seq := q, authentic := a, echo := e }
   | _ => none
 
-def parseMsg (s : String) : Option Msg :=
+def parseCode (s : String) : Option Nat :=
+  match s.toNat? with
+  | some c => if c < 256 then some c else none
+  | none => none
+
+/-- `<seq>:<0|1>:<echo|->[:<code>]`: a request of the peer under an outer code (default POST) -/
+def parseWireReq (s : String) : Option WireMsg :=
   match s.splitOn ":" with
-  | ["q", q, a, e] => (parseArrival s!"{q}:{a}:{e}").map Msg.req
-  | ["p", q, a] => do
-    let q ← parseOptNat q
-    let a ← (if a = "1" then some true else if a = "0" then some false else none)
-    pure (.resp { seq := q, authentic := a })
+  | [q, a, e] => (parseArrival s!"{q}:{a}:{e}").map fun x => WireMsg.ofArrival x codePOST
+  | [q, a, e, c] => do
+    let x ← parseArrival s!"{q}:{a}:{e}"
+    let c ← parseCode c
+    pure (WireMsg.ofArrival x c)
+  | _ => none
+
+def parseResp (q a : String) : Option RespArrival := do
+  let q ← parseOptNat q
+  let a ← (if a = "1" then some true else if a = "0" then some false else none)
+  pure { seq := q, authentic := a }
+
+/-- `q:<request>` | `p:<seq|->:<0|1>[:<code>]` (default outer code 2.05 Content) -/
+def parseWireMsg (s : String) : Option WireMsg :=
+  match s.splitOn ":" with
+  | "q" :: rest => parseWireReq (":".intercalate rest)
+  | ["p", q, a] => (parseResp q a).map fun r => WireMsg.ofResp r 69
+  | ["p", q, a, c] => do
+    let r ← parseResp q a
+    let c ← parseCode c
+    pure (WireMsg.ofResp r c)
   | _ => none
 
 def outcomeLetter : Outcome → String
   | .accepted => "A" | .replayError => "R" | .replayEcho => "E" | .protectionInvalid => "P"
+
+def wireLetter : WOut → String
+  | .plain o => outcomeLetter o
+  | .codeRefused => "V"
 
 def windowOps (w : RW) : List String → Option (RW × List String)
   | [] => some (w, [])
@@ -85,20 +116,20 @@ def handleC12 (args : List String) : String :=
     match size.toNat?, parseOptNat echo with
     | some size, some echo =>
       if size = 0 then "out-of-model" else
-      match parseWin size win, arrivals.mapM parseArrival with
+      match parseWin size win, arrivals.mapM parseWireReq with
       | some win, some as =>
-        let (c, outs) := run { size, win, echoRecovery := echo } as
-        String.join (outs.map outcomeLetter) ++ " |" ++ showWin c.win
+        let (c, outs) := runWire { size, win, echoRecovery := echo } as
+        String.join (outs.map wireLetter) ++ " |" ++ showWin c.win
       | _, _ => "bad-op"
     | _, _ => "bad-op"
   | "M" :: size :: win :: echo :: msgs =>
     match size.toNat?, parseOptNat echo with
     | some size, some echo =>
       if size = 0 then "out-of-model" else
-      match parseWin size win, msgs.mapM parseMsg with
+      match parseWin size win, msgs.mapM parseWireMsg with
       | some win, some ms =>
-        let (c, outs) := runMsgs { size, win, echoRecovery := echo } ms
-        String.join (outs.map outcomeLetter) ++ " |" ++ showWin c.win
+        let (c, outs) := runWire { size, win, echoRecovery := echo } ms
+        String.join (outs.map wireLetter) ++ " |" ++ showWin c.win
       | _, _ => "bad-op"
     | _, _ => "bad-op"
   | _ => "bad-op"
